@@ -325,16 +325,26 @@ def run(ctx):
                 # dominated by a comparison of the same length with sizeof(dest) that exits/continues
                 ln = src(n_)
                 okb = False
+                clamped = False
                 for n in fn.body.walk():
                     if n.k == "IfStmt":
                         cnd = [x for x in n.c if x is not None][0]
                         if ln in src(cnd) and any(x.k == "UnaryExprOrTypeTraitExpr" or (x.cv is not None and cap is not None and x.cv == cap)
                                                   for x in cnd.walk()) and ">" in src(cnd):
                             first = min((x for x in n.walk() if x.i in fn.cfg.where()), key=lambda x: x.i)
+                            then = [x for x in n.c if x is not None][1]
+                            rejects = any(x.k in ("ContinueStmt", "ReturnStmt", "BreakStmt", "GotoStmt") for x in then.walk())
                             if fn.cfg.node_dominates(first, c):
                                 okb = True
+                                if not rejects:
+                                    clamped = True
                 ctx.ob("R6.bounded", key, P.where(c),
                        "memcpy of `%s` bytes into the %s-byte %s array is dominated by a size test" % (ln, cap, mem[0].name), okb)
+                if "max" in mem[0].name.split("_"):
+                    ctx.ob("R6.bounded", key + "|whole", P.where(c),
+                           "a value too long for the %s storage is rejected (bounds dropped / iteration left), never stored as a "
+                           "truncated prefix: a prefix is not an upper bound" % mem[0].name, not clamped,
+                           "the size test falls through to the copy (clamp)" if clamped else "")
     ctx.floor("C16 min/max memcpy sites", nmc, 10)
 
     # ---- every value participates in the min/max decision or invalidates the bounds
